@@ -17,6 +17,7 @@ from lockstep import run_real, lockstep, free_run
 from real import snapshot
 
 _DRV = None
+MIXED_SAFE = {"C07"}
 
 
 def _drv():
@@ -34,6 +35,26 @@ def make_case(seed, i, profile):
     if profile == "exh":
         return gen.exh_spec(i)
     rng = case_rng(seed, i)
+    if profile == "decimal":
+        # work amounts, progress and skills off the dyadic grid (0.1, 0.3, 0.7 ...): float residues appear; real runs
+        # only (the model is exact), predicates in tolerance mode
+        spec = gen.gen_spec(rng, "full")
+        for tk in spec["tasks"]:
+            tk["work"] = rng.choice([0.1, 0.3, 0.7, 1.0, 1.1, 2.3, 10.0])
+            tk["prog"] = rng.choice([0.0, 0.0, 0.7, 0.3, 0.1])
+            if tk.get("auto"):
+                tk["auto_rate"] = rng.choice([0.1, 0.3, 1.0])
+        for tm in spec["teams"]:
+            for w in tm["workers"]:
+                w["skills"] = {k: (rng.choice([0.1, 0.3, 0.7, 0.9, 1.0]) if v else v) for k, v in w["skills"].items()}
+        for q in spec.get("workplaces", []):
+            for f in q["facilities"]:
+                f["skills"] = {k: (rng.choice([0.1, 0.3, 0.7, 1.0]) if v else v) for k, v in f["skills"].items()}
+        spec["decimal"] = True
+        p = gen.gen_params(rng, spec)
+        p.pop("warmup", None)
+        p["initState"] = p["initLog"] = True
+        return spec, dict(p, maxTime=60)
     if profile == "nested":
         spec = gen.gen_nested(rng)
         return spec, dict(gen.gen_params(rng, spec), maxTime=40)
@@ -50,6 +71,8 @@ def evaluate(spec, params, prop_ids, want_lockstep=True):
     """run one case on the real code and the model; returns a JSON-able result dict"""
     res = dict(fp=fingerprint(spec, params), dis=[], viol=[], exc=None, steps=0, stats={}, feats={})
     project, ix, model, pre, snaps, exc = run_real(spec, params)
+    if spec.get("decimal"):
+        model["decimal"] = True
     final = snapshot(project, ix)
     res["steps"] = sum(1 for b, _ in snaps if b == "recorded")
     res["exc"] = None if exc is None else "%s: %s" % (type(exc).__name__, exc)
@@ -89,9 +112,12 @@ def evaluate(spec, params, prop_ids, want_lockstep=True):
             run["model_final"] = dict(status=ans["status"], time=ans["time"])
         except Exception as e:
             run["model_final"] = dict(error=repr(e))
+    # predicates index the logs by the step number of THIS run; when the observed run keeps the logs or the
+    # clock of an earlier one only the predicates written for that are evaluated (the lockstep covers the rest)
+    mixed = not (params.get("initState", True) and params.get("initLog", True))
     for pid in prop_ids:
         fpred = preds.PREDS.get(pid)
-        if fpred is None:
+        if fpred is None or (mixed and pid not in MIXED_SAFE):
             continue
         try:
             vs = fpred(model, params, run)
